@@ -66,12 +66,14 @@ type Obligation struct {
 	Cover  bool   // cover query: expected sat (reachability / vacuity guard)
 	Pos    string
 	// results
-	Status string // discharged | failed | unknown | cover-ok | cover-dead
-	Solver string
-	Secs   float64
-	Model  map[string]string
-	Output string
-	File   string // SMT-LIB file of the query (kept while the obligation is not discharged)
+	Status   string // discharged | failed | unknown | cover-ok | cover-dead
+	Solver   string
+	Secs     float64
+	Model    map[string]string
+	Output   string
+	File     string // SMT-LIB file of the query (kept while the obligation is not discharged)
+	Confirm  string // thorough tier: second solver that also decided it ("" = none did in time)
+	Disagree string // thorough tier: a second solver answered sat on an obligation the first one discharged
 }
 
 func (vc *VC) oblige(name, kind, reach, goal, pos string) *Obligation {
